@@ -111,8 +111,8 @@ func (k *Finding) matches(prop, sig string) bool {
 
 // budgetFor is the CPU time one worker may use before it stops expanding
 // (Ctx.Expired). The tiers are sized by their bounds, not by this number: the
-// heaviest quick shard needs about 40 s of CPU time and the heaviest thorough
-// shard about 8 min on the machine the checks were written on, so a run is cut
+// heaviest quick shard needs about 33 s of CPU time (C11) and the heaviest thorough
+// shard about 13 min (C09) on the machine the checks were written on, so a run is cut
 // short only on a much slower processor, never because the machine is busy.
 func budgetFor(tier string) time.Duration {
 	if s := os.Getenv("VERIF_BUDGET_S"); s != "" {
@@ -121,7 +121,7 @@ func budgetFor(tier string) time.Duration {
 		}
 	}
 	if tier == "thorough" {
-		return 12 * time.Minute
+		return 30 * time.Minute
 	}
 	return 5 * time.Minute
 }
